@@ -389,6 +389,142 @@ GO_TYPES = {
 }
 
 
+# ---------------------------------------------------------------------------------------------------------------
+# look-alike overrides: rule-level configs that differ in type or structure but print the same under `%v` /
+# `fmt.Sprint` / JSON without quotes ("1" vs 1, "[a b]" vs ["a", "b"] vs ["a b"], {k: "v k2:v2"} vs {k: v, k2: v2},
+# "<nil>" vs null), and spellings of one setting ("1m0s" vs 60000000000).  A family is a list of (config, invalid);
+# `invalid` = the type's decoder refuses the value (strict decoding), whatever was created before.  One factory sees
+# several members of a family for the same catalogue entry, in any order: every variant has to be the catalogue entry
+# overlaid with ITS OWN config.
+
+def _fam(*members):
+    return [(m, False) if not isinstance(m, tuple) else m for m in members]
+
+
+def _bad(conf):
+    return (conf, True)
+
+
+_ASSERT_LOOKALIKE = [
+    _fam({"assertions": {"issuers": ["iss1 other"]}}, {"assertions": {"issuers": ["iss1", "other"]}},
+         _bad({"assertions": {"issuers": "[iss1 other]"}})),
+    _fam({"assertions": {"audience": ["a1 a2"]}}, {"assertions": {"audience": ["a1", "a2"]}}),
+    _fam({"assertions": {"scopes": ["s1 s2"]}}, {"assertions": {"scopes": ["s1", "s2"]}}),
+    _fam({"cache_ttl": "1m0s"}, {"cache_ttl": 60000000000}, {"cache_ttl": "60s"}),
+    _fam({"allow_fallback_on_error": True}, _bad({"allow_fallback_on_error": "true"})),
+    _fam({"assertions": {"validity_leeway": "5s"}}, {"assertions": {"validity_leeway": 5000000000}},
+         _bad({"assertions": {"validity_leeway": "5"}})),
+]
+_VALUES_LOOKALIKE = [
+    _fam({"values": {"a": "y c:w"}}, {"values": {"a": "y", "c": "w"}}),
+    _fam({"values": {"a": "1"}}, _bad({"values": {"a": 1}})),
+    _fam({"values": {"a": "[y w]"}}, _bad({"values": {"a": ["y", "w"]}})),
+    _fam({"values": {"a": "map[c:w]"}}, _bad({"values": {"a": {"c": "w"}}})),
+    _fam({"values": {"a": "y"}}, _bad({"values": "map[a:y]"})),
+    _fam({"payload": "1"}, _bad({"payload": 1})),
+    _fam({"payload": "true"}, _bad({"payload": True})),
+    _fam({"cache_ttl": "1m0s"}, {"cache_ttl": 60000000000}),
+]
+LOOKALIKE = {
+    ("authenticator", "anonymous"): [
+        _fam({"subject": "1"}, _bad({"subject": 1})), _fam({"subject": "true"}, _bad({"subject": True})),
+        _fam({"subject": "[a b]"}, _bad({"subject": ["a", "b"]}), _bad({"subject": ["a b"]})),
+        _fam({"subject": "map[a:b]"}, _bad({"subject": {"a": "b"}})),
+        _fam({"subject": "<nil>"}, {"subject": None}),
+        _fam({"subject": "a b:c"}, _bad({"subject": "a", "b": "c"}))],
+    ("authenticator", "basic_auth"): [
+        _fam({"user_id": "7"}, _bad({"user_id": 7})), _fam({"password": "true"}, _bad({"password": True})),
+        _fam({"user_id": "u2 password:p2"}, {"user_id": "u2", "password": "p2"}),
+        _fam({"allow_fallback_on_error": True}, _bad({"allow_fallback_on_error": "true"}))],
+    ("authenticator", "generic"): [
+        _fam({"cache_ttl": "1m0s"}, {"cache_ttl": 60000000000}, {"cache_ttl": "60s"}),
+        _fam({"cache_ttl": 5}, _bad({"cache_ttl": "5"})),
+        _fam({"allow_fallback_on_error": False}, _bad({"allow_fallback_on_error": "false"}))],
+    ("authenticator", "jwt"): _ASSERT_LOOKALIKE,
+    ("authenticator", "oauth2_introspection"): _ASSERT_LOOKALIKE,
+    ("authorizer", "remote"): _VALUES_LOOKALIKE + [
+        _fam({"forward_response_headers_to_upstream": ["X-Echo Content-Type"]},
+             {"forward_response_headers_to_upstream": ["X-Echo", "Content-Type"]},
+             _bad({"forward_response_headers_to_upstream": "[X-Echo Content-Type]"}))],
+    ("contextualizer", "generic"): _VALUES_LOOKALIKE + [
+        _fam({"forward_headers": ["X-A X-User"]}, {"forward_headers": ["X-A", "X-User"]},
+             _bad({"forward_headers": "[X-A X-User]"})),
+        _fam({"forward_cookies": ["c1 sid"]}, {"forward_cookies": ["c1", "sid"]}),
+        _fam({"continue_pipeline_on_error": False}, _bad({"continue_pipeline_on_error": "false"}))],
+    ("finalizer", "header"): [
+        _fam({"headers": {"X-Scope": "read X-Tenant:acme"}}, {"headers": {"X-Scope": "read", "X-Tenant": "acme"}}),
+        _fam({"headers": {"X-A": "1"}}, _bad({"headers": {"X-A": 1}})),
+        _fam({"headers": {"X-A": "[a b]"}}, _bad({"headers": {"X-A": ["a", "b"]}})),
+        _fam({"headers": {"X-A": "a"}}, _bad({"headers": "map[X-A:a]"})),
+        _fam({"headers": {"X-A": "{{ .Subject.ID }} X-B:b"}}, {"headers": {"X-A": "{{ .Subject.ID }}", "X-B": "b"}})],
+    ("finalizer", "cookie"): [
+        _fam({"cookies": {"a": "1", "b": "2"}}, {"cookies": {"a": "1 b:2"}}),
+        _fam({"cookies": {"a": "1"}}, _bad({"cookies": {"a": 1}})),
+        _fam({"cookies": {"a": "true"}}, _bad({"cookies": {"a": True}}))],
+    ("finalizer", "jwt"): [
+        _fam({"ttl": "10m0s"}, {"ttl": 600000000000}, {"ttl": "600s"}),
+        _fam({"claims": "7"}, _bad({"claims": 7})),
+        _fam({"claims": '{"x": "y"}'}, _bad({"claims": {"x": "y"}}))],
+    ("finalizer", "oauth2_client_credentials"): [
+        _fam({"scopes": ["s2 s3"]}, {"scopes": ["s2", "s3"]}, _bad({"scopes": "[s2 s3]"})),
+        _fam({"header": {"name": "X-Other scheme:Own"}}, {"header": {"name": "X-Other", "scheme": "Own"}}),
+        _fam({"cache_ttl": "10s"}, {"cache_ttl": 10000000000})],
+    ("error_handler", "www_authenticate"): [
+        _fam({"realm": "1"}, _bad({"realm": 1})), _fam({"realm": "[a b]"}, _bad({"realm": ["a", "b"]})),
+        _fam({"realm": "<nil>"}, {"realm": None}), _fam({"realm": "true"}, _bad({"realm": True}))],
+    ("error_handler", "redirect"): [_fam(_bad({"to": "1"}), _bad({"to": 1}))],
+}
+LOOKALIKE_WEIGHTS = {("authenticator", "anonymous"): 3, ("finalizer", "header"): 3, ("finalizer", "cookie"): 2,
+                     ("authorizer", "remote"): 2, ("contextualizer", "generic"): 2, ("error_handler", "redirect"): 1}
+
+
+def lookalike_ops(entry, members, reqg, rng, execs=1):
+    """creations of the members (one after the other), then executions of every variant handed out"""
+    ops = []
+    for conf, invalid in members:
+        op = {"op": "create", "kind": entry["kind"], "id": entry["id"], "config": copy_of(conf)}
+        if invalid:
+            op["invalid"] = True
+        ops.append(op)
+    for h, (conf, invalid) in enumerate(members):
+        if not invalid:
+            for _ in range(execs):
+                ops.append({"op": "exec", "h": h, "req": reqg(rng)})
+    return ops
+
+
+def gen_lookalike_case(rng):
+    """one catalogue entry, 2..5 creations with members of one look-alike family (any order, repetitions), sometimes
+    with a member of another family or the prototype in between; every variant handed out is executed"""
+    keys = list(LOOKALIKE)
+    kind, typ = rng.choices(keys, [LOOKALIKE_WEIGHTS.get(k, 2) for k in keys])[0]
+    e, ovg, reqg = gen_entry(rng, kind, typ, 0)
+    fams = LOOKALIKE[(kind, typ)]
+    fam = list(pick(rng, fams))
+    members = [pick(rng, fam) for _ in range(rng.choice([2, 2, 3, 3, 4, 5]))]
+    if len({repr(m) for m in members}) == 1 and len(fam) > 1:
+        members[-1] = pick(rng, [m for m in fam if repr(m) != repr(members[0])])
+    if maybe(rng, 0.3):
+        members.insert(rng.randrange(len(members) + 1), pick(rng, pick(rng, fams)))
+    if maybe(rng, 0.2):
+        members.insert(rng.randrange(len(members) + 1), (ovg(rng), False))
+    return {"fam": "mech", "catalogue": [e], "ops": lookalike_ops(e, members, reqg, rng, rng.choice([1, 1, 2]))}
+
+
+def lookalike_grid(rng):
+    """every type x every family x every ordered pair of different members (and the whole family forwards and
+    backwards): the histories tried when the static footprint reports state shared by the creations of one factory"""
+    cases = []
+    for (kind, typ), fams in LOOKALIKE.items():
+        for fam in fams:
+            seqs = [[fam[a], fam[b]] for a in range(len(fam)) for b in range(len(fam)) if a != b]
+            seqs += [list(fam) + [fam[0]], list(reversed(fam)) + [fam[-1]]]
+            for members in seqs:
+                e, _, reqg = gen_entry(rng, kind, typ, 0)
+                cases.append({"fam": "mech", "catalogue": [e], "ops": lookalike_ops(e, members, reqg, rng)})
+    return cases
+
+
 def gen_cold_case(rng, types=None):
     """the very first uses of a prototype and of its variants happen concurrently"""
     kind, typ = pick(rng, types or [("authenticator", "jwt"), ("authenticator", "oauth2_introspection"),
